@@ -92,7 +92,7 @@ PROPS = {
         "assumptions": ["the world part of the theorems covers the controller data types the harness uses; every system-data type is C06's subject"],
     },
     "C14": {
-        "statement": "C14_panicked_iff, C14_payload_source, C14_dependents_dont_run over PTraces",
+        "statement": "for every log accepted by the driver's panic-aware acceptor (PR.run): C14_panic_reported_iff, C14_dependents_dont_run, C14_at_most_once, C14_nothing_left_open; plus the declarative PTraces semantics (C14_panicked_iff, C14_payload_source)",
         "engines": [trace("flat,base,batch,tl", quick=50, panics=True)],
         "aspects": TRACE,
         "assumptions": [RAYON, "rayon re-raises a job's panic in the caller of install after the stage's started jobs finished; unwinding drops guards; RwLock read locks do not poison"],
